@@ -328,7 +328,7 @@ func c02Case(t *testing.T, w *verifW, i int, cache bool) (*c02Run, int) {
 	lim := c17Pick(r, 0, 0, 1, 2, 3, 5)
 	metaIdx := r.Intn(4)
 	singleFlight := r.Intn(2) == 0
-	corpus := cache && i < 2
+	corpus := cache && i < 3
 	if corpus {
 		lim, metaIdx = 0, 2
 	}
@@ -468,6 +468,12 @@ func c03Corpus(t testing.TB, run *c02Run, i int) {
 	case 1: // zero-position: (0, current epoch) on an empty stream with top 0
 		run.subscribe(t, c02Step{Kind: "cache", Ch: 0, Off: 0, Ep: 1, Handler: "no"})
 		run.subscribe(t, c02Step{Kind: "stream", Ch: 0, Off: 0, Ep: 1}) // stream mode reports recovered=true
+	case 2: // cache-gap-disconnect: newest visible publication is older than a filtered one; a publish races the read
+		run.pubs[1], run.pubs[2], run.pubs[3] = [2]bool{true, true}, [2]bool{true, false}, [2]bool{true, true}
+		run.base(c17Op{Kind: "pub", Ch: 0, ID: 1, P: &c17Popts{Size: 5, TTL: 60000, Tags: c02Tags(true, true)}})
+		run.base(c17Op{Kind: "pub", Ch: 0, ID: 2, P: &c17Popts{Size: 5, TTL: 60000, Tags: c02Tags(true, false)}})
+		run.subscribe(t, c02Step{Kind: "cache", Ch: 0, Off: 0, Ep: 1, UseC: true, Handler: "no",
+			Race: []c02Pub{{ID: 3, P: &c17Popts{Size: 5, TTL: 60000, Tags: c02Tags(true, true)}}}})
 	}
 }
 
